@@ -183,3 +183,126 @@ func VerifH_C10_sortLess() {
 	es.Sort()
 	vAssert(es[0].ElementID() <= es[1].ElementID(), "elements-sorted")
 }
+
+// c10Digits: k symbolic decimal digits (no leading zero unless k == 1) and their value.
+func c10Digits(name string, k int) (string, int64) {
+	s := vStr(name, k)
+	var v int64
+	for i := 0; i < k; i++ {
+		vAssume(vAnd(s[i] >= '0', s[i] <= '9'))
+		v = v*10 + int64(s[i]-'0')
+	}
+	if k > 1 {
+		vAssume(s[0] != '0')
+	}
+	return s, v
+}
+
+// VerifH_C10_parse: text of the form kind/ref[:version|:-] with symbolic digits
+// parses to exactly the packed id of (kind, ref, version); ref in [0,2^40), version in [0,2^16).
+func VerifH_C10_parse() {
+	kind := vRange("kind", 0, 2)
+	name := []string{"node", "way", "relation"}[kind]
+	refTxt, ref := c10Digits("refDigit", []int{1, 12}[vRange("refDigits", 0, 1)])
+	vAssume(ref < 1<<40)
+	vmode := vRange("versionMode", 0, 3) // 0 absent, 1 ":-", 2 one digit, 3 five digits
+	s := name + "/" + refTxt
+	ver := int64(0)
+	switch vmode {
+	case 1:
+		s += ":-"
+	case 2:
+		t, v := c10Digits("verDigit", 1)
+		s, ver = s+":"+t, v
+	case 3:
+		t, v := c10Digits("verDigit", 5)
+		vAssume(v < 1<<16)
+		s, ver = s+":"+t, v
+	}
+	wantE, wantF, wantO, _ := c10Elem(kind, ref, int(ver))
+	e, err := ParseElementID(s)
+	vReach("parsed")
+	vAssert(err == nil, "element-id-text-accepted")
+	vAssert(e == wantE, "element-id-text-parses-to-the-same-id")
+	o, err := ParseObjectID(s)
+	vAssert(err == nil, "object-id-text-accepted")
+	vAssert(o == wantO, "object-id-text-parses-to-the-same-id")
+	if vmode == 0 {
+		f, err := ParseFeatureID(s)
+		vAssert(err == nil, "feature-id-text-accepted")
+		vAssert(f == wantF, "feature-id-text-parses-to-the-same-id")
+	}
+}
+
+// VerifH_C10_string: String() is kind "/" decimal(ref) [":" decimal(version) | ":-"].
+func VerifH_C10_string() {
+	kind := vRange("kind", 0, 2)
+	name := []string{"node", "way", "relation"}[kind]
+	ref, v := vInt64("ref"), vInt("v")
+	vAssume(c10Dom(ref, v))
+	e, f, o, _ := c10Elem(kind, ref, v)
+	vReach("formatted")
+	vAssert(f.String() == name+"/"+vDec(ref), "feature-id-text")
+	if vRange("versionZero", 0, 1) == 1 {
+		vAssume(v == 0)
+		vAssert(e.String() == name+"/"+vDec(ref)+":-", "element-id-text-without-version")
+		vAssert(o.String() == name+"/"+vDec(ref)+":-", "object-id-text-without-version")
+	} else {
+		vAssume(v != 0)
+		vAssert(e.String() == name+"/"+vDec(ref)+":"+vDec(int64(v)), "element-id-text")
+		vAssert(o.String() == name+"/"+vDec(ref)+":"+vDec(int64(v)), "object-id-text")
+	}
+}
+
+// VerifH_C10_reject: text without the kind/ref[:version] shape or with an unknown kind
+// is an error. (Signed or zero-padded numbers are accepted by strconv and denote
+// references outside the stated domain; they are outside this claim.)
+func VerifH_C10_reject() {
+	var s string
+	objectKind := false
+	notNum := func(b byte) bool { // not a digit and not a sign
+		return vAnd(vOr(b < '0', b > '9'), vAnd(b != '+', b != '-'))
+	}
+	switch vRange("shape", 0, 7) {
+	case 0: // unknown kind, otherwise well formed
+		d, _ := c10Digits("d", 1)
+		kt := vRange("kindText", 0, 4)
+		objectKind = kt == 3 // "changeset" is a kind of object id (not of element / feature ids)
+		s = []string{"area", "Node", "nodes", "changeset", ""}[kt] + "/" + d
+	case 1: // no slash
+		x := vStr("x", 2)
+		vAssume(vAnd(x[0] != '/', x[1] != '/'))
+		s = "node" + x
+	case 2: // too many parts
+		s = "node/1/2"
+	case 3: // reference is not a number
+		x := vStr("x", 2)
+		vAssume(vOr(notNum(x[0]), vOr(x[1] < '0', x[1] > '9')))
+		vAssume(vAnd(x[0] != '/', x[1] != '/'))
+		vAssume(vAnd(x[0] != ':', x[1] != ':'))
+		s = "way/" + x + ":1"
+	case 4: // version is neither a number nor '-'
+		x := vStr("x", 1)
+		vAssume(vAnd(notNum(x[0]), vAnd(x[0] != '/', x[0] != ':')))
+		s = "relation/12:" + x
+	case 5:
+		s = ""
+	case 6: // too many version parts
+		s = "node/1:2:3"
+	case 7: // empty reference
+		s = "node/"
+	}
+	_, err := ParseElementID(s)
+	vReach("parsed")
+	vAssert(err != nil, "malformed-element-id-text-rejected")
+	_, err = ParseObjectID(s)
+	if objectKind {
+		vAssert(err == nil, "changeset-is-an-object-kind")
+	} else {
+		vAssert(err != nil, "malformed-object-id-text-rejected")
+	}
+	if vRange("feature", 0, 1) == 1 {
+		_, err = ParseFeatureID(s)
+		vAssert(err != nil, "malformed-feature-id-text-rejected")
+	}
+}
